@@ -76,6 +76,10 @@ func c02Corpus() map[string]string {
 		"if x { a /* c */ }\nb", "if x { a } // c\nb", "if x { a // c\n}\nb", "/* c */ a\nb", "a /* c */\nb", "a // c1\n// c2\nb",
 		"func f() { /* only */ }\nf()", "func f() {\n\t// only\n}\nf()", "if x {\n\t/* first */ a\n\tb /* last */\n} else { /* e */ c }\nd",
 		"for i = 0:2 { a /* c */ }\nb", "x = 1 /* c1 */ /* c2 */\ny = 2", "// header\n\n\n// second\nx = 1\n\n\n\ny = 2\n\n",
+		// string literals holding bytes that are not valid UTF-8 (raw in the source, and as \x escapes), raw strings
+		"s = \"caf\xe9\"", "s = \"\xff\xfe\" + \"\xc3\"", "s = `raw \xe9 \xff`", "s = \"\\xe9\\xff\\x41\"", "s = \"\\u00e9\\t\\x00\"", "m = {\"k\xe9\": \"\x80\"}",
+		// the same value in different spellings, in one input and across inputs
+		"a = 31", "b = 0x1F", "c = 0b11111", "d = 3_1", "e = 31 + 0x1f + 0b1_1111", "f = 1000003 + 1_000_003", "g = 1.5 + 1.50 + 15e-1", "h = 0x1f3", "i = 499",
 		"if a { b } else { c /* c */ }\nd", "func g() { return 1 /* r */ }\ng()", "m = {\"a\": 1, // one\n \"b\": 2}\nm", "x = [1, // one\n 2]\nx",
 	} {
 		add(s)
@@ -197,6 +201,20 @@ func TestVerifBoundedFixpoint(t *testing.T) {
 				if !compact && (!strings.HasSuffix(once, "\n") || strings.HasSuffix(once, "\n\n")) {
 					fail(fmt.Sprintf("%s: normal-mode output does not end with exactly one newline: %q", name, c02cut(once)))
 				}
+			}
+		}
+	}
+	// already-formatted texts come back unchanged whatever was parsed before (every spelling of a literal is kept)
+	for _, canon := range []string{"a = 31\n", "b = 0x1F\n", "c = 0b11111\n", "d = 3_1\n", "h = 0x1f3\n", "i = 499\n", "f = 1000003 + 1_000_003\n", "g = 1.5 + 1.50 + 15e-1\n", "s = \"caf\\xe9\"\n", "x = a + (b - c)\n"} {
+		for pass := 0; pass < 2; pass++ {
+			evals++
+			prog, errs := c02Parse(canon)
+			if len(errs) > 0 {
+				fail(fmt.Sprintf("canonical text %q is rejected: %v", canon, errs))
+				continue
+			}
+			if got := c02Print(prog, false, false); got != canon {
+				fail(fmt.Sprintf("already-formatted text %q is not returned unchanged (pass %d, after the whole corpus was parsed): %q", canon, pass, got))
 			}
 		}
 	}
